@@ -11,8 +11,11 @@
    Fluent/Callable.v (callable_id: what of a callable enters the digest that stands for it in
    the node name -- module, qualified name, code with nested code constants, defaults, closure
    contents, repr of the receiver of a bound method / of a callable that is not a function).
-   Proofs: Fluent/NamesProofs.v, Fluent/CallableProofs.v.
-   Checkers for the correspondence: Fluent/NamesCheck.v, Fluent/CallableCheck.v.
+   Fluent/NamesHeap.v (names while a program runs: Payload.args as a reference to a list object,
+   Payload.copy, the placeholders appended in place by Node.__init__, Payload objects of the
+   caller re-used for nodes with different numbers of inputs and in a second build).
+   Proofs: Fluent/NamesProofs.v, Fluent/CallableProofs.v, Fluent/NamesHeapProofs.v.
+   Checkers for the correspondence: Fluent/NamesCheck.v, Fluent/CallableCheck.v, Fluent/NamesHeapCheck.v.
 
    Hypotheses, in words:
      H injective, hex output : custom_hash = SHA-256 hexdigest is treated as collision free;
@@ -33,6 +36,7 @@
 From Coq Require Import List String Ascii Bool Arith.
 From EKW Require Import Fluent.Names Fluent.NamesProofs Fluent.Callable Fluent.CallableProofs.
 From EKW Require Fluent.NamesCheck Fluent.CallableCheck.
+From EKW Require Fluent.NamesHeap Fluent.NamesHeapProofs Fluent.NamesHeapCheck.
 Import ListNotations.
 Open Scope string_scope.
 Open Scope list_scope.
@@ -100,6 +104,71 @@ Theorem C14_same_name_same_callable :
   nname H cname (FN ovr (cid H R ca) args kw ins nout) = nname H cname (FN ovr' (cid H R cb) args' kw' ins' nout') ->
   ca = cb.
 Proof. exact same_name_same_callable. Qed.
+
+(* ---- names while a program runs: Fluent/NamesHeap.v, the machine with list OBJECTS (Payload.args
+   is a reference; Node.__init__ copies the Payload it is given, appends the placeholders of its
+   inputs to the copy in place and hashes the list as it is then).  A program = any sequence of
+   Payload(...) and Node(...) constructions; a Payload object may be given to any number of nodes
+   with any numbers of inputs (map: 1, reduce: the length of a dimension, batches of different
+   length), in the first build of the program and again in the second. *)
+
+(* the machine computes the names Names.v gives to what the program DECLARES, and when the
+   program is over every node object holds the payload of its declaration (callable, declared
+   arguments + one placeholder per input of its own, keywords) and every Payload object of the
+   caller holds what it was declared with: no hypothesis on H *)
+Theorem C14_built_names_are_declared_names :
+  forall (H cname : string -> string) (ops : list NamesHeap.bop) (st : NamesHeap.state),
+  NamesHeap.run H cname ops NamesHeap.init = Ok st ->
+  exists sp, NamesHeap.spec_run ops NamesHeap.spec_init = Some sp /\
+    map NamesHeap.n_name (NamesHeap.s_nodes st) = map (nname H cname) (NamesHeap.sp_trees sp) /\
+    map (NamesHeap.node_view (NamesHeap.s_heap st)) (NamesHeap.s_nodes st) = map NamesHeap.declared_view (NamesHeap.sp_trees sp) /\
+    map (NamesHeap.payload_view (NamesHeap.s_heap st)) (NamesHeap.s_payloads st) = NamesHeap.sp_decls sp.
+Proof. exact NamesHeapProofs.built_names_are_declared_names. Qed.
+
+(* two node OBJECTS a program built carry the same name only if, when the program is over, they
+   hold the same payload and were declared as the same computation *)
+Theorem C14_built_same_name_same_payload :
+  forall (H cname : string -> string),
+  (forall a b, H a = H b -> a = b) -> (forall a, allc hexchar (H a) = true) ->
+  forall ops st sp, NamesHeap.run H cname ops NamesHeap.init = Ok st -> NamesHeap.spec_run ops NamesHeap.spec_init = Some sp ->
+  forallb (wf_node cname) (NamesHeap.sp_trees sp) = true ->
+  forall i j a b, nth_error (NamesHeap.s_nodes st) i = Some a -> nth_error (NamesHeap.s_nodes st) j = Some b ->
+  NamesHeap.n_name a = NamesHeap.n_name b ->
+  NamesHeap.node_view (NamesHeap.s_heap st) a = NamesHeap.node_view (NamesHeap.s_heap st) b /\
+  exists ta tb, nth_error (NamesHeap.sp_trees sp) i = Some ta /\ nth_error (NamesHeap.sp_trees sp) j = Some tb /\
+                comp_of ta = comp_of tb /\ lowered H cname ta = lowered H cname tb.
+Proof. exact NamesHeapProofs.built_same_name_same_payload. Qed.
+
+(* building the same thing again (later in the program, or in a second build of the program that
+   re-uses the caller's Payload objects) gives the same name, whatever the Payload objects were
+   used for in between *)
+Theorem C14_rebuilt_same_names :
+  forall (H cname : string -> string) ops st sp,
+  NamesHeap.run H cname ops NamesHeap.init = Ok st -> NamesHeap.spec_run ops NamesHeap.spec_init = Some sp ->
+  forall i j a b ta tb, nth_error (NamesHeap.s_nodes st) i = Some a -> nth_error (NamesHeap.s_nodes st) j = Some b ->
+  nth_error (NamesHeap.sp_trees sp) i = Some ta -> nth_error (NamesHeap.sp_trees sp) j = Some tb ->
+  comp_of ta = comp_of tb -> labels_of ta = labels_of tb -> NamesHeap.n_name a = NamesHeap.n_name b.
+Proof. exact NamesHeapProofs.rebuilt_same_names. Qed.
+
+(* a Payload.copy that shares the list object (copy.copy) breaks all three: in the program
+   P = Payload(combine, kwargs=...); src.map(P); src.reduce(P, dim); src.map(P) again (second build)
+   the two map nodes are declared alike but get different names, the first map node ends up
+   holding three placeholders for its one input (its name was hashed from another payload),
+   and P itself is changed *)
+Theorem C14_sharing_copy_refuted :
+  exists st sp a b t,
+    NamesHeap.run_with NamesCheck.hexenc NamesHeapCheck.ex_cn NamesHeap.pcopy_shallow NamesHeapCheck.ex_prog NamesHeap.init = Ok st /\
+    NamesHeap.spec_run NamesHeapCheck.ex_prog NamesHeap.spec_init = Some sp /\
+    nth_error (NamesHeap.s_nodes st) 3 = Some a /\ nth_error (NamesHeap.s_nodes st) 5 = Some b /\
+    nth_error (NamesHeap.sp_trees sp) 3 = Some t /\ nth_error (NamesHeap.sp_trees sp) 5 = Some t /\
+    NamesHeap.n_name a <> NamesHeap.n_name b /\
+    NamesHeap.node_view (NamesHeap.s_heap st) a <> NamesHeap.declared_view t /\
+    map (NamesHeap.payload_view (NamesHeap.s_heap st)) (NamesHeap.s_payloads st) <> NamesHeap.sp_decls sp.
+Proof.
+  do 5 eexists. split; [vm_compute; reflexivity|]. split; [vm_compute; reflexivity|].
+  split; [reflexivity|]. split; [reflexivity|]. split; [reflexivity|]. split; [reflexivity|].
+  split; [vm_compute; discriminate|]. split; vm_compute; discriminate.
+Qed.
 
 (* ------------------------------------------------------------------ non-vacuity *)
 Definition ex_cname (f : string) : string :=
@@ -232,6 +301,25 @@ Example C14_before_fix_stack_squeezed_operand :
              /\ nth_error h' 0 <> nth_error ex_h 0.
 Proof. eexists. split; [vm_compute; reflexivity | vm_compute; discriminate]. Qed.
 
+(* the same program on the real machine: it runs, the declared trees are in the domain, the two
+   map nodes (first and second build) share a name, map and reduce do not, the first map node
+   holds one placeholder at the end *)
+Example C14_built_names_nonvacuous :
+  exists st sp a b c,
+    NamesHeap.run NamesCheck.hexenc NamesHeapCheck.ex_cn NamesHeapCheck.ex_prog NamesHeap.init = Ok st /\
+    NamesHeap.spec_run NamesHeapCheck.ex_prog NamesHeap.spec_init = Some sp /\
+    forallb (wf_node NamesHeapCheck.ex_cn) (NamesHeap.sp_trees sp) = true /\
+    nth_error (NamesHeap.s_nodes st) 3 = Some a /\ nth_error (NamesHeap.s_nodes st) 5 = Some b /\
+    nth_error (NamesHeap.s_nodes st) 4 = Some c /\
+    NamesHeap.n_name a = NamesHeap.n_name b /\ NamesHeap.n_name a <> NamesHeap.n_name c /\
+    NamesHeap.node_view (NamesHeap.s_heap st) a = (NamesHeapCheck.ex_f, [VStr "input0"], [("scale", VAtom "2.0")]) /\
+    NamesHeap.node_view (NamesHeap.s_heap st) c = (NamesHeapCheck.ex_f, [VStr "input0"; VStr "input1"; VStr "input2"], [("scale", VAtom "2.0")]).
+Proof.
+  do 5 eexists. split; [vm_compute; reflexivity|]. split; [vm_compute; reflexivity|].
+  split; [vm_compute; reflexivity|]. split; [reflexivity|]. split; [reflexivity|]. split; [reflexivity|].
+  split; [vm_compute; reflexivity|]. split; [vm_compute; discriminate|]. split; vm_compute; reflexivity.
+Qed.
+
 Print Assumptions C14_same_name_same_computation.
 Print Assumptions C14_same_program_same_names.
 Print Assumptions C14_lowering_by_name_unambiguous.
@@ -239,3 +327,7 @@ Print Assumptions C14_same_name_same_outputs.
 Print Assumptions C14_operands_intact.
 Print Assumptions C14_callable_id_identifies_callable.
 Print Assumptions C14_same_name_same_callable.
+Print Assumptions C14_built_names_are_declared_names.
+Print Assumptions C14_built_same_name_same_payload.
+Print Assumptions C14_rebuilt_same_names.
+Print Assumptions C14_sharing_copy_refuted.
